@@ -18,9 +18,9 @@ from vt.checks import c05
 PROPERTY = 'C17'
 
 A = {None: None, 'x': 'route 10.0.0.0/24 next-hop 1.1.1.1 med 10;', 'y': 'route 10.0.0.0/24 next-hop 1.1.1.1 med 20;', 'z': 'route 10.0.0.0/24 next-hop 2.2.2.2 med 10;'}
-B = {None: None, 'x': 'route 10.0.1.0/24 next-hop 1.1.1.1 med 10;'}
+B = {None: None, 'x': 'route 10.0.1.0/24 next-hop 1.1.1.1 med 10;', 'y': 'route 10.0.1.0/24 next-hop 1.1.1.1 med 20;'}
 C6 = {None: None, 'x': 'route 2001:db8:1::/48 next-hop 2001:db8::1 med 10;'}
-VAL = {('A', 'x'): ('1.1.1.1', 10), ('A', 'y'): ('1.1.1.1', 20), ('A', 'z'): ('2.2.2.2', 10), ('B', 'x'): ('1.1.1.1', 10), ('C', 'x'): ('2001:db8::1', 10)}
+VAL = {('A', 'x'): ('1.1.1.1', 10), ('A', 'y'): ('1.1.1.1', 20), ('A', 'z'): ('2.2.2.2', 10), ('B', 'x'): ('1.1.1.1', 10), ('B', 'y'): ('1.1.1.1', 20), ('C', 'x'): ('2001:db8::1', 10)}
 KEY = {'A': w.nlri_key(w.nlri_ip(1, 1, '10.0.0.0', 24)), 'B': w.nlri_key(w.nlri_ip(1, 1, '10.0.1.0', 24)), 'C': w.nlri_key(w.nlri_ip(2, 1, '2001:db8:1::', 48)),
        'D': w.nlri_key(w.nlri_ip(1, 1, '10.9.0.0', 24))}
 
@@ -53,9 +53,12 @@ neighbor 127.0.0.3 {
 """
 
 
-def config(sel, hold=30, extra='', norib=False):
+def config(sel, hold=30, extra='', norib=False, rev=False):
     a, b, c = sel
     lines = [x for x in (A[a], B[b], C6[c]) if x]
+    if rev:
+        # the same routes written in the opposite order (the order in which they are queued)
+        lines.reverse()
     ribopts = 'adj-rib-out false;' if norib else 'capability { route-refresh enable; }'
     return CFG % dict(hold=hold, routes='\n'.join('    ' + l for l in lines), extra=extra, ribopts=ribopts)
 
@@ -73,6 +76,8 @@ def table_of(sel):
 
 
 SELS = list(itertools.product([None, 'x', 'y', 'z'], [None, 'x'], [None, 'x']))
+# the same with a second attribute set for B, so that A and B can take over each other's attributes
+SELS_B = list(itertools.product([None, 'x', 'y', 'z'], [None, 'x', 'y'], [None, 'x']))
 
 
 def peer_table(sm, sock_index):
@@ -125,15 +130,24 @@ def run_success(args):
     viols = []
     hold_new = 30 if change != 'hold' else 60
     norib = change == 'norib'
-    with World(config(old, norib=norib)) as wd:
+    rev = session.endswith('-rev')
+    session = session.split('-')[0]
+    with World(config(old, norib=norib, rev=rev)) as wd:
         env = Env(wd, hold=30, script=[], config_name='active')
         env.step = 0
         up = False
-        if session == 'up':
+        if session in ('up', 'flap'):
             up = establish(wd, env)
             if not up:
                 raise core.HarnessError('could not establish')
             wd.advance(0.4)
+            if session == 'flap':
+                # the session is lost and the next attempt refused: the reload finds the session down after it had been up
+                env.current().feed('EOF')
+                wd.settle()
+                wd.advance(0.3)
+                establish(wd, env, refuse=True)
+                wd.advance(0.3)
         else:
             # the remote refuses: the session stays down during the reload
             establish(wd, env, refuse=True)
@@ -154,7 +168,7 @@ def run_success(args):
         if change == 'remove':
             wd.set_config(CFG.split('neighbor 127.0.0.2')[0] + SECOND)
         else:
-            wd.set_config(config(new, hold=hold_new, extra=extra, norib=norib))
+            wd.set_config(config(new, hold=hold_new, extra=extra, norib=norib, rev=rev))
         wd.signal('RELOAD')
         wd.settle()
         wd.advance(0.6)
@@ -367,6 +381,18 @@ def plan(tier):
                 succ.append((old, new, 'up', 'none', 'none'))
         for old, new in itertools.product(SELS[::3], SELS[::2]):
             succ.append((old, new, 'down', 'none', 'none'))
+        # two attribute sets for both A and B, the routes written (queued) in either order, session up and down
+        for old, new in itertools.product(SELS_B, SELS_B):
+            if old[1] == 'y' or new[1] == 'y':
+                for sess in ('up', 'down', 'up-rev', 'down-rev'):
+                    succ.append((old, new, sess, 'none', 'none'))
+            else:
+                for sess in ('up-rev', 'down-rev', 'down'):
+                    succ.append((old, new, sess, 'none', 'none'))
+        for old, new in itertools.product(SELS_B[1::5], SELS_B[::3]):
+            for sess in ('flap', 'flap-rev'):
+                succ.append((old, new, sess, 'none', 'none'))
+                succ.append((old, new, sess, 'D', 'none'))
         for old, new in itertools.product(SELS[1::5], SELS[::5]):
             for api_state in ('D', 'D-'):
                 for sess in ('up', 'down'):
@@ -387,6 +413,10 @@ def plan(tier):
                 for ch in ('hold', 'add', 'remove', 'norib'):
                     succ.append((old, new, 'up', 'none', ch))
                 succ.append((old, new, 'up', 'D', 'norib'))
+        for old, new in itertools.product(SELS_B, SELS_B):
+            for sess in ('up-rev', 'down-rev', 'flap', 'flap-rev') + (('up', 'down') if (old[1] == 'y' or new[1] == 'y') else ()):
+                for api_state in ('none', 'D', 'D-'):
+                    succ.append((old, new, sess, api_state, 'none'))
         bases = [(SELS[1], SELS[10]), (SELS[0], SELS[15]), (SELS[15], SELS[1])]
     for old, new in bases:
         nlines = len([l for l in config(new).split('\n') if l.strip()])
@@ -407,6 +437,7 @@ def plan(tier):
             for fault in FAULTS:
                 for sess in ('up-noproc', 'down-noproc'):
                     fail.append((old, new, li, fault, sess))
+    succ = list(dict.fromkeys(succ))
     return succ, fail
 
 
